@@ -129,4 +129,41 @@ example : (FastccM.fastcc [0, 1, 2, 3] [0, 1] [[0], [2], [], [3]]).complete = tr
 example : (FastccM.fastcc [0, 1, 2, 3] [0, 1] [[0], [2], [], [3]]).calls =
     [⟨[0, 1], false, [0]⟩, ⟨[1, 2, 3], false, [2]⟩, ⟨[1, 3], false, []⟩, ⟨[3], true, [3]⟩] := by decide
 
+/-! ### what `find_blocked_reactions` does with the first solution and the ranges (`BlockedM`, Model/Fastcc.lean) -/
+
+theorem absR_eq (q : Rat) : BlockedM.absR q = |q| := by
+  unfold BlockedM.absR
+  split
+  · rename_i h; rw [abs_of_neg h]
+  · rename_i h; rw [abs_of_nonneg (not_lt.1 h)]
+
+/-- **what is reported lies within the cutoff**: a reported reaction was requested, and every flux value inside its range is below the cutoff in
+absolute value -/
+theorem find_blocked_reported_within_cutoff (cut : Rat) (sol : Nat → Rat) (rng : Nat → Rat × Rat) (req : List Nat) (i : Nat)
+    (h : i ∈ BlockedM.blocked cut sol rng req) :
+    i ∈ req ∧ ∀ v : Rat, (rng i).1 ≤ v → v ≤ (rng i).2 → |v| < cut := by
+  simp only [BlockedM.blocked, BlockedM.toFva, List.mem_filter, decide_eq_true_eq] at h
+  obtain ⟨⟨hreq, _⟩, hm⟩ := h
+  refine ⟨hreq, fun v h1 h2 => ?_⟩
+  rw [absR_eq, absR_eq] at hm
+  have ha : |(rng i).1| < cut := lt_of_le_of_lt (le_max_left _ _) hm
+  have hb : |(rng i).2| < cut := lt_of_le_of_lt (le_max_right _ _) hm
+  rw [abs_lt] at ha hb ⊢
+  constructor <;> linarith [ha.1, ha.2, hb.1, hb.2]
+
+/-- **a blocked reaction that was asked for is reported**: it has flux zero in the first solution (a feasible flux vector) and both certified
+ends of its range are zero -/
+theorem find_blocked_reports_blocked (p : LP) (r : Nat) (x xmax ymax xmin ymin : List Rat) (cut : Rat) (hcut : 0 < cut)
+    (hb : Blocked p r) (hx : p.feasible x = true)
+    (hmax : (p.withObj (unit p.n r)).checkOpt xmax ymax = true) (hmin : (p.withObj (negV (unit p.n r))).checkOpt xmin ymin = true)
+    (req : List Nat) (hr : r ∈ req) (rng : Nat → Rat × Rat) (hrng : rng r = (xmin.getD r 0, xmax.getD r 0)) :
+    r ∈ BlockedM.blocked cut (fun i => x.getD i 0) rng req := by
+  have hz := (blocked_iff_range_zero p r xmax ymax xmin ymin hmax hmin).1 hb
+  simp only [BlockedM.blocked, BlockedM.toFva, List.mem_filter, decide_eq_true_eq]
+  refine ⟨⟨hr, ?_⟩, ?_⟩
+  · rw [absR_eq, hb x hx, abs_zero]; exact hcut
+  · rw [hrng, absR_eq, absR_eq, hz.1, hz.2, abs_zero, max_self]; exact hcut
+
+example : BlockedM.blocked (1/10) (fun i => if i = 0 then 3 else 0) (fun i => if i = 1 then (0, 2) else (0, 0)) [0, 1, 2] = [2] := by decide +kernel
+
 end C19
